@@ -216,6 +216,17 @@ class RatioV(V):
         return f"Ratio({self.num!r}/{self.den})"
 
 
+class GenV(V):
+    """A generator object: the call of a generator function, not yet run.  Its body is interpreted when it is
+    iterated (`for`, `yield from`) or driven explicitly by a property module (Interp.drive)."""
+
+    def __init__(self, func, args, kwargs, closure=None):
+        self.func, self.args, self.kwargs, self.closure = func, list(args), dict(kwargs), closure
+
+    def __repr__(self):
+        return f"Gen<{self.func.short}>"
+
+
 class SuperV(V):
     def __init__(self, cls, obj):
         self.cls, self.obj = cls, obj
@@ -283,7 +294,31 @@ class State:
     def nonneg(self, sym_name: str, f: LinExpr):
         """Register the fact f >= 0 (about symbol sym_name) for use in product lemmas, and assume it."""
         self.__dict__.setdefault("nonneg_facts", {}).setdefault(sym_name, []).append(f)
-        self.add(ge(f, 0))
+        ok = self.add(ge(f, 0))
+        # products already present in the path condition that involve this symbol get the new lemma too
+        partners = set()
+        for c in self.cons:
+            for mono in c.e.terms:
+                if len(mono) == 2 and sym_name in mono:
+                    partners.add(mono[0] if mono[1] == sym_name else mono[1])
+        for t in partners:
+            self.lemmas(sym_name, t)
+        return ok
+
+    def lemmas(self, sa: str, sb: str):
+        """f >= 0 (about sa) and g >= 0 (about sb)  =>  f*g >= 0   (monotonicity of multiplication)."""
+        facts = self.__dict__.setdefault("nonneg_facts", {})
+        done = self.__dict__.setdefault("_lemmas_done", set())
+        for f in facts.get(sa, []):
+            for g in facts.get(sb, []):
+                key = frozenset((repr(f), repr(g)))
+                if key in done:
+                    continue
+                done.add(key)
+                prod = f * g
+                if all(len(m) <= 2 for m in prod.terms):
+                    self.cons.append(ge(prod, 0))
+                    self._model = None
 
     # heap helpers
     def alloc(self, entry: dict) -> int:
@@ -464,6 +499,7 @@ class Interp:
         self.struct_formats: dict[str, str] = {}  # enum member name -> struct format
         self._load_struct_formats()
         self.on_event: Optional[Callable] = None
+        self.yield_handlers: list = []
         self._st: Optional[State] = None
 
     # ------------------------------------------------------------------ enum table (RepresentationCode)
@@ -909,6 +945,17 @@ class Interp:
                 return self.val(st, IntV(ai * bi))
             if isinstance(op, ast.Pow) and ai.is_const() and bi.is_const() and 0 <= bi.const <= 64:
                 return self.val(st, IntV(int(ai.const) ** int(bi.const)))
+            if isinstance(op, (ast.Mod, ast.FloorDiv)) and not bi.is_const() and st.entails(ge(bi, 1)):
+                q = st.new_sym("q", f"({ai!r}) // ({bi!r})")
+                r = st.new_sym("r", f"({ai!r}) % ({bi!r})")
+                st.add(eq(ai, q * bi + r))
+                rn = next(iter(r.symbols()))
+                st.nonneg(rn, r)
+                st.nonneg(rn, bi - 1 - r)
+                for csym in bi.symbols():
+                    st.__dict__.setdefault("nonneg_facts", {}).setdefault(csym, []).append(bi - 1)
+                st.events.append(("divmod", self.where(node), ai, bi, q, r))
+                return self.val(st, IntV(r if isinstance(op, ast.Mod) else q))
             if isinstance(op, (ast.Mod, ast.FloorDiv)):
                 if not bi.is_const() or bi.const <= 0:
                     self.unsupported(node, "modulo / floor division by a non-constant")
@@ -938,22 +985,9 @@ class Interp:
         self.unsupported(node, f"binary operation on {a!r}, {b!r}")
 
     def product_lemmas(self, st: State, a: LinExpr, b: LinExpr):
-        """Monotonicity of multiplication: for registered facts f >= 0 about a symbol of `a` and g >= 0 about a symbol
-        of `b`, f*g >= 0 (added once; the non-linear monomials are ordinary variables for the linear procedure)."""
-        facts = st.__dict__.setdefault("nonneg_facts", {})
-        done = st.__dict__.setdefault("_lemmas_done", set())
         for sa in sorted(a.symbols()):
             for sb in sorted(b.symbols()):
-                for f in facts.get(sa, []):
-                    for g in facts.get(sb, []):
-                        key = (repr(f), repr(g))
-                        if key in done:
-                            continue
-                        done.add(key)
-                        prod = f * g
-                        if all(len(m) <= 2 for m in prod.terms):
-                            st.cons.append(ge(prod, 0))
-        st._model = None
+                st.lemmas(sa, sb)
 
     def e_Attribute(self, e, st):
         return self.bind(self.eval(e.value, st), lambda v, s: self.getattr(v, e.attr, s, e))
@@ -1219,16 +1253,33 @@ class Interp:
     # ------------------------------------------------------------------ calls
     def e_Call(self, e, st):
         def with_callee(fv, s):
-            def with_args(args, s2):
-                kwnames = [k.arg for k in e.keywords]
-                if any(k is None for k in kwnames):
-                    self.unsupported(e, "**kwargs call")
-                pos = args[:len(e.args)]
-                kws = dict(zip(kwnames, args[len(e.args):]))
+            pos_exprs = [a.value if isinstance(a, ast.Starred) else a for a in e.args]
+            kw_exprs = [k.value for k in e.keywords]
+
+            def with_args(vals, s2):
+                pos = []
+                for a, v in zip(e.args, vals[:len(e.args)]):
+                    if isinstance(a, ast.Starred):
+                        if isinstance(v, (TupleV, ListV)):
+                            pos.extend(s2.items(v))
+                        else:
+                            self.unsupported(e, f"*args of {v!r}")
+                    else:
+                        pos.append(v)
+                kws = {}
+                for k, v in zip(e.keywords, vals[len(e.args):]):
+                    if k.arg is None:
+                        if isinstance(v, DictV):
+                            for kk, vv in s2.items(v).items():
+                                if not isinstance(kk, str):
+                                    self.unsupported(e, "**kwargs with a non-string key")
+                                kws[kk] = vv
+                        else:
+                            self.unsupported(e, f"**kwargs of {v!r}")
+                    else:
+                        kws[k.arg] = v
                 return self.call(fv, pos, kws, s2, e)
-            if any(isinstance(a, ast.Starred) for a in e.args):
-                self.unsupported(e, "*args call")
-            return self.bind(self.eval_list(list(e.args) + [k.value for k in e.keywords], s), with_args)
+            return self.bind(self.eval_list(pos_exprs + kw_exprs, s), with_args)
         return self.bind(self.eval(e.func, st), with_callee)
 
     def call(self, fv: V, args: list, kwargs: dict, st: State, node) -> list[Out]:
@@ -1258,11 +1309,24 @@ class Interp:
         outs = self.call_function(init, [obj] + list(args), kwargs, st, node)
         return [Out("val", o.st, obj) if o.kind == "val" else o for o in outs]
 
-    def call_function(self, f: FuncInfo, args: list, kwargs: dict, st: State, node, closure=None) -> list[Out]:
+    def drive(self, f: FuncInfo, args: list, kwargs: dict, st: State, node=None) -> list[Out]:
+        """Run a function; if it is a generator function, run its body to completion, every `yield` being recorded as
+        an event (no consumer)."""
+        self.yield_handlers.append(None)
+        try:
+            return self.call_function(f, args, kwargs, st, node or f.node, drive=True)
+        finally:
+            self.yield_handlers.pop()
+
+    def call_function(self, f: FuncInfo, args: list, kwargs: dict, st: State, node, closure=None,
+                      drive=False) -> list[Out]:
         if f.qualname in self.summaries:
             r = self.summaries[f.qualname](self, args, kwargs, st, node)
             if r is not None:
                 return r
+        if not drive and isinstance(f.node, ast.FunctionDef) and f.is_generator() \
+                and not any(d.split(".")[-1] == "contextmanager" for d in f.decorators):
+            return self.val(st, GenV(f, args, kwargs, closure))
         if self.depth >= self.max_depth:
             raise Unsupported(f"inlining depth {self.max_depth} exceeded at {f.short}")
         self.consulted.add(f.qualname)
@@ -1313,6 +1377,9 @@ class Interp:
             self.cur_func.pop()
         res = []
         for o in outs:
+            if o.kind == "escape":
+                res.append(o)
+                continue
             o.st.frames.pop()
             if o.kind == "return":
                 res.append(Out("val", o.st, o.value))
@@ -1465,8 +1532,12 @@ class Interp:
         if name.startswith("struct.Struct:") and name.endswith(".pack"):
             fmt = name[len("struct.Struct:"):-len(".pack")]
             return self.struct_pack(fmt, args, st, node)
-        if name.endswith("logger.debug") or name.endswith("logger.info") or name.endswith("logger.warning") \
-                or name.endswith("logger.error") or ".getLogger" in name:
+        if ".getLogger" in name:
+            return self.val(st, ExtV("logger"))
+        if name in ("logger.debug", "logger.info", "logger.warning", "logger.error", "logger.exception",
+                    "logger.critical"):
+            if name != "logger.debug" and name != "logger.info":
+                st.events.append(("log", self.where(node), name.split(".")[1]))
             return self.val(st, NONE)
         if name.startswith("exc:"):
             return self.val(st, ExtV(name))
@@ -1660,6 +1731,9 @@ class Interp:
                 return self.val(st, TupleV([TupleV([self._key_value(k), v]) for k, v in d.items()], True))
         if isinstance(recv, StubV) and attr in recv.methods:
             return recv.methods[attr](self, args, kwargs, st, node)
+        if isinstance(recv, _FileV) and attr in ("seek", "truncate", "flush", "tell", "close"):
+            st.events.append(("file-" + attr, self.where(node), [_tag(a) for a in args]))
+            return self.val(st, OpaqueV("file." + attr))
         if isinstance(recv, _FileV) and attr == "write" and len(args) == 1:
             a = args[0]
             if isinstance(a, BufV):
@@ -1716,17 +1790,87 @@ class Interp:
     def do_yield(self, y, st):
         if isinstance(y, ast.YieldFrom):
             def go(v, s2):
+                if isinstance(v, GenV):
+                    # delegate: the sub-generator's yields go to the same consumer
+                    outs = self.call_function(v.func, v.args, v.kwargs, s2, y, closure=v.closure, drive=True)
+                    return [Out("next", o.st) if o.kind == "val" else o for o in outs]
+                items = self.iter_items(v, s2, y)
+                if items is not None:
+                    outs = [Out("next", s2)]
+                    for item in items:
+                        outs = [x for o in outs for x in (self.emit(item, o.st, y) if o.kind == "next" else [o])]
+                    return outs
                 s2.events.append(("yield-from", self.where(y), v, list(s2.cons)))
                 return [Out("next", s2)]
             return self.bind(self.eval(y.value, st), go)
         if y.value is None:
-            st.events.append(("yield", self.where(y), NONE, list(st.cons)))
-            return [Out("next", st)]
+            return self.emit(NONE, st, y)
+        return self.bind(self.eval(y.value, st), lambda v, s2: self.emit(v, s2, y))
 
-        def go(v, s2):
-            s2.events.append(("yield", self.where(y), v, list(s2.cons)))
-            return [Out("next", s2)]
-        return self.bind(self.eval(y.value, st), go)
+    def emit(self, v: V, st: State, node) -> list[Out]:
+        """One value leaves the generator: hand it to the consumer (a `for` loop being interpreted) or log it."""
+        h = self.yield_handlers[-1] if self.yield_handlers else None
+        if h is None:
+            st.events.append(("yield", self.where(node), v, list(st.cons)))
+            return [Out("next", st)]
+        return h(v, st, node)
+
+    def for_over_generator(self, s: ast.For, gen: "GenV", st: State) -> list[Out]:
+        base_frames = len(st.frames)
+        base_cf = len(self.cur_func)
+        base_depth = self.depth
+
+        def handler(v, s2, node):
+            saved = s2.frames[base_frames:]
+            del s2.frames[base_frames:]
+            saved_cf = self.cur_func[base_cf:]
+            del self.cur_func[base_cf:]
+            saved_depth, self.depth = self.depth, base_depth
+            self.yield_handlers.append(outer)
+            try:
+                outs = []
+                for a in self.assign_target(s.target, v, s2, s):
+                    if a.kind == "next":
+                        outs.extend(self.exec_block(s.body, a.st))
+                    else:
+                        outs.append(a)
+            finally:
+                self.yield_handlers.pop()
+                self.cur_func.extend(saved_cf)
+                self.depth = saved_depth
+            res = []
+            for o in outs:
+                if o.kind in ("next", "continue"):
+                    o.st.frames.extend(dict(fr) for fr in saved)
+                    res.append(Out("next", o.st))
+                elif o.kind == "loop-iteration":
+                    res.append(o)
+                else:
+                    # break / return / raise of the consumer: unwinds the generator and the loop
+                    res.append(Out("escape", o.st, value=o))
+            return res
+        outer = self.yield_handlers[-1] if self.yield_handlers else None
+        self.yield_handlers.append(handler)
+        try:
+            outs = self.call_function(gen.func, gen.args, gen.kwargs, st, s, closure=gen.closure, drive=True)
+        finally:
+            self.yield_handlers.pop()
+        res = []
+        for o in outs:
+            if o.kind == "val":
+                if s.orelse:
+                    res.extend(self.exec_block(s.orelse, o.st))
+                else:
+                    res.append(Out("next", o.st))
+            elif o.kind == "escape":
+                inner = o.value
+                if inner.kind == "break":
+                    res.append(Out("next", inner.st))
+                else:
+                    res.append(inner)
+            else:
+                res.append(o)
+        return res
 
     def s_Assign(self, s, st):
         def go(v, s2):
@@ -1881,6 +2025,8 @@ class Interp:
 
     def s_For(self, s, st):
         def go(it, s2):
+            if isinstance(it, GenV):
+                return self.for_over_generator(s, it, s2)
             items = self.iter_items(it, s2, s)
             if items is None:
                 spec = self.loop_specs.get(id(s))
@@ -2236,8 +2382,13 @@ class LoopSpec:
             lo, hi = iterable.lo, iterable.hi
             # zero iterations
             s0 = st.clone()
-            if s0.add(le(hi, lo)):
+            ok0 = s0.add(le(hi, lo))
+            for sname in (hi - lo).symbols():
+                if (hi - lo).terms.get((sname,)) in (1, -1) and ok0:
+                    ok0 = s0.nonneg(sname, lo - hi) and not infeasible_cached(s0.cons)
+            if ok0:
                 s0.trace.append(("loop", "for-zero"))
+                s0.events.append(("for-marker", id(node), "zero", lo, hi))
                 outs.append(Out("next", s0))
             s1 = st.clone()
             if s1.add(gt(hi, lo)):
@@ -2249,7 +2400,7 @@ class LoopSpec:
                 for v in modified:
                     if v in s1.env and v not in tnames:
                         s1.env[v] = OpaqueV(f"{v}@loop")
-                s1.events.append(("for-range", it.where(node), i, lo, hi))
+                s1.events.append(("for-range", it.where(node), i, lo, hi, id(node)))
                 for a in it.assign_target(node.target, IntV(i), s1, node):
                     for bo in it.exec_block(node.body, a.st):
                         if bo.kind in ("next", "continue"):
@@ -2267,6 +2418,7 @@ class LoopSpec:
                 if tnames:
                     s2.env[tnames[0]] = IntV(hi - 1)
                 s2.trace.append(("loop", "for-after"))
+                s2.events.append(("for-marker", id(node), "after", lo, hi))
                 outs.append(Out("next", s2))
             return outs
         # opaque iterable: zero or more iterations with opaque items
